@@ -11,7 +11,9 @@ Reading guide:
 * `invalid_name_no_effect`   a rejected name gives an error and the empty effect log;
 * `guard_is_necessary` without validation the same path functions do leave the root;
 * `list_real_dirs`     the listing is exactly the real sub-directories of the root;
-* `model_holds`        every clause of `Holds` for every input.
+* `model_holds`        every clause of `Holds` for every input (worlds with symbolic links - to files,
+                       to directories, to executables, dangling - anywhere, in particular inside a
+                       left-over `<root>/<name>`, included).
 -/
 import NotationModel.Lemmas.C16Path
 set_option linter.unusedSimpArgs false
@@ -168,23 +170,39 @@ theorem plain_valid (n : Text) (h : plainName n = true) : validName n = true := 
     have := r2 c hm
     simp [h.2 c hc] at this
 
+theorem mgrGet_valid {fs : List Node} {root name : Text} (hv : validName name = true) :
+    mgrGet fs root name =
+      match lookup fs (exePath root name) with
+      | none => .error .notExist
+      | some n =>
+        if n.kind = .symnone then .error .notExist
+        else if n.kind.statRegular then .ok n else .error .notRegular := by
+  unfold mgrGet
+  cases lookup fs (exePath root name) <;> simp [hv]
+
+theorem mgrGet_invalid {fs : List Node} {root name : Text} (hv : validName name = false) :
+    mgrGet fs root name = .error .invalid := by
+  obtain ⟨g1, _, _⟩ := facts_guards
+  simp [mgrGet, g1, hv]
+
 theorem mgrGet_ok {fs : List Node} {root name : Text} {n : Node} (h : mgrGet fs root name = .ok n) :
     validName name = true ∧ lookup fs (exePath root name) = some n ∧ n.kind.statRegular = true := by
-  obtain ⟨g1, _, _⟩ := facts_guards
-  unfold mgrGet at h
-  rw [g1] at h
-  by_cases hv : validName name = true
-  · simp only [hv, Bool.not_true, Bool.and_false, Bool.false_eq_true, if_false] at h
+  cases hv : validName name with
+  | false => rw [mgrGet_invalid hv] at h; cases h
+  | true =>
+    rw [mgrGet_valid hv] at h
     cases hl : lookup fs (exePath root name) with
     | none => simp [hl] at h
     | some m =>
       simp only [hl] at h
-      by_cases hr : m.kind.statRegular = true
-      · simp only [hr, if_true, Except.ok.injEq] at h
-        subst h
-        exact ⟨hv, rfl, hr⟩
-      · simp [hr] at h
-  · simp [hv] at h
+      split at h
+      · cases h
+      · split at h
+        · rename_i hr
+          injection h with h
+          subst h
+          exact ⟨rfl, rfl, hr⟩
+        · cases h
 
 theorem mgrGet_ok_exe {fs : List Node} {root name : Text} {n : Node} (h : mgrGet fs root name = .ok n) :
     isPluginExe root name n.path = true := by
@@ -192,10 +210,16 @@ theorem mgrGet_ok_exe {fs : List Node} {root name : Text} {n : Node} (h : mgrGet
   have := (lookup_some hl).2
   simp [isPluginExe, this, comps_exePath root name hv]
 
-theorem mgrGet_invalid {fs : List Node} {root name : Text} (hv : validName name = false) :
-    mgrGet fs root name = .error .invalid := by
-  obtain ⟨g1, _, _⟩ := facts_guards
-  simp [mgrGet, g1, hv]
+theorem inPluginDir_inRoot {root n p : Text} (h : inPluginDir root n p = true) :
+    (rootComps root).isPrefixOf (comps p) = true := by
+  simp only [inPluginDir, List.isPrefixOf_iff_prefix] at h ⊢
+  exact (List.prefix_append _ _).trans h
+
+theorem all_inRoot {root n : Text} {l : List Text} (h : l.all (inPluginDir root n) = true) :
+    l.all (fun p => (rootComps root).isPrefixOf (comps p)) = true := by
+  rw [List.all_eq_true] at h ⊢
+  intro p hp
+  exact inPluginDir_inRoot (h p hp)
 
 theorem holds_get (i : Input) (h : i.op = .get) : Holds i (runGet i) = true := by
   simp only [Holds, clauses, effName, h, Clauses.holds_cons, Clauses.holds_nil, Bool.and_true]
@@ -209,35 +233,14 @@ theorem holds_get (i : Input) (h : i.op = .get) : Holds i (runGet i) = true := b
     simp [mgrGet_invalid hv, errObs, hp]
   | true =>
     have hs := valid_is_single_component _ hv
-    cases hg : mgrGet i.fs i.root i.name with
-    | error e =>
-      simp only [errObs, hs]
-      have : lookup i.fs (exePath i.root i.name) = none ∨
-          ∃ n, lookup i.fs (exePath i.root i.name) = some n ∧ n.kind.statRegular = false := by
-        obtain ⟨g1, _, _⟩ := facts_guards
-        unfold mgrGet at hg
-        simp only [g1, hv, Bool.not_true, Bool.and_false, Bool.false_eq_true, if_false] at hg
-        cases hl : lookup i.fs (exePath i.root i.name) with
-        | none => exact Or.inl rfl
-        | some m =>
-          right
-          refine ⟨m, rfl, ?_⟩
-          simp only [hl] at hg
-          cases hr : m.kind.statRegular with
-          | false => rfl
-          | true => simp [hr] at hg
-      rcases this with hl | ⟨n, hl, hr⟩
-      · simp [hl]
-      · have : (n.kind == Kind.exec) = false := by
-          cases hk : n.kind <;> simp [hk, Kind.statRegular] at hr ⊢
-        simp [hl, this]
-    | ok n =>
-      obtain ⟨_, hl, hr⟩ := mgrGet_ok hg
-      have hx := mgrGet_ok_exe hg
-      simp only [hs, hl]
-      by_cases hk : n.kind = .exec
-      · simp [ranBy, hk, hx]
-      · simp [ranBy, hk]
+    rw [mgrGet_valid hv]
+    cases hl : lookup i.fs (exePath i.root i.name) with
+    | none => simp [errObs, hs]
+    | some n =>
+      have hx : isPluginExe i.root i.name n.path = true := by
+        have := (lookup_some hl).2
+        simp [isPluginExe, this, comps_exePath i.root i.name hv]
+      cases hk : n.kind <;> simp [hk, Kind.statRegular, Kind.runnable, ranBy, errObs, hs, hx]
 
 theorem holds_verify (i : Input) (h : i.op = .verify) : Holds i (runVerify i) = true := by
   simp only [Holds, clauses, effName, h, Clauses.holds_cons, Clauses.holds_nil, Bool.and_true]
@@ -249,13 +252,14 @@ theorem holds_verify (i : Input) (h : i.op = .verify) : Holds i (runVerify i) = 
     | false => simp [mgrGet_invalid hv, errObs]
     | true =>
       have hs := valid_is_single_component _ hv
-      cases hg : mgrGet i.fs i.root i.name with
-      | error e => simp [errObs, hs]
-      | ok n =>
-        have hx := mgrGet_ok_exe hg
-        by_cases hk : n.kind = .exec
-        · simp [ranBy, hk, hx, hs]
-        · simp [ranBy, hk, hs]
+      rw [mgrGet_valid hv]
+      cases hl : lookup i.fs (exePath i.root i.name) with
+      | none => simp [errObs, hs]
+      | some n =>
+        have hx : isPluginExe i.root i.name n.path = true := by
+          have := (lookup_some hl).2
+          simp [isPluginExe, this, comps_exePath i.root i.name hv]
+        cases hk : n.kind <;> simp [hk, Kind.statRegular, Kind.runnable, ranBy, errObs, hs, hx]
 
 theorem holds_list (i : Input) (h : i.op = .list) : Holds i (runList i) = true := by
   simp [Holds, clauses, effName, h, Clauses.holds_cons, Clauses.holds_nil, runList]
@@ -279,21 +283,21 @@ theorem holds_uninstall (i : Input) (h : i.op = .uninstall) : Holds i (runUninst
     | none => simp [errObs, hs]
     | some n =>
       obtain ⟨hm, hc⟩ := lookup_some hl
-      simp only [hs, all_sortTexts]
-      have h1 : (List.map (fun x => x.path) (List.filter (fun n => under (dirPath i.root i.name) n.path) i.fs)).all
-          (inPluginDir i.root i.name) = true := by
-        simp only [List.all_eq_true, List.mem_map, List.mem_filter]
-        rintro p ⟨m, ⟨_, hu⟩, rfl⟩
-        simpa [under, inPluginDir, hd] using hu
-      have h2 : (sortTexts (List.map (fun x => x.path) (List.filter (fun n => under (dirPath i.root i.name) n.path) i.fs))).contains n.path = true := by
-        simp only [List.contains_eq_mem, decide_eq_true_eq, mem_sortTexts, List.mem_map, List.mem_filter]
-        exact ⟨n, ⟨hm, by simp [under, hc]⟩, rfl⟩
-      simp
-      refine ⟨?_, Or.inr ?_⟩
-      · intro x hx
-        rw [mem_sortTexts] at hx
-        exact List.all_eq_true.1 h1 x hx
-      · simpa using h2
+      by_cases hk : n.kind = .symnone
+      · simp [hk, errObs, hs]
+      · simp only [hk, if_false, hs]
+        have h1 : (List.map (fun x => x.path) (List.filter (fun n => under (dirPath i.root i.name) n.path) i.fs)).all
+            (inPluginDir i.root i.name) = true := by
+          simp only [List.all_eq_true, List.mem_map, List.mem_filter]
+          rintro p ⟨m, ⟨_, hu⟩, rfl⟩
+          simpa [under, inPluginDir, hd] using hu
+        have h1' := all_inRoot h1
+        have h2 : (sortTexts (List.map (fun x => x.path) (List.filter (fun n => under (dirPath i.root i.name) n.path) i.fs))).contains n.path = true := by
+          simp only [List.contains_eq_mem, decide_eq_true_eq, mem_sortTexts, List.mem_map, List.mem_filter]
+          exact ⟨n, ⟨hm, by simp [under, hc]⟩, rfl⟩
+        rw [← all_sortTexts] at h1 h1'
+        simp [h1, h1', h2]
+        exact Or.inr (Or.inr (by simpa using h2))
 
 theorem fromDir_mem {fs : List Node} {d : Text} {r : Node × Text} (h : fromDir fs d = some r) :
     childOf (comps d) r.1.path = true := by
@@ -342,24 +346,26 @@ theorem installSource_under {fs : List Node} {src : Text} {s e : Node} {nm : Tex
     · rename_i s' hl
       have hc := (lookup_some hl).2
       split at h
-      · cases hf : fromDir fs s'.path with
-        | none => simp [hf] at h
-        | some r =>
-          have := fromDir_mem hf
-          simp [hf] at h
-          obtain ⟨_, h2, _⟩ := h
-          subst h2
-          simp only [childOf, beq_iff_eq] at this
-          simp [under, this, ← hc]
+      · cases h
       · split at h
-        · cases h
-        · split at h
-          · injection h with h
-            injection h with h1 h2
-            injection h2 with h2 h3
+        · cases hf : fromDir fs s'.path with
+          | none => simp [hf] at h
+          | some r =>
+            have := fromDir_mem hf
+            simp [hf] at h
+            obtain ⟨_, h2, _⟩ := h
             subst h2
-            simp [under, hc]
+            simp only [childOf, beq_iff_eq] at this
+            simp [under, this, ← hc]
+        · split at h
           · cases h
+          · split at h
+            · injection h with h
+              injection h with h1 h2
+              injection h2 with h2 h3
+              subst h2
+              simp [under, hc]
+            · cases h
 
 theorem comps_copied {fs : List Node} {src exe : Node} {d : Text} {n : Node} (h : n ∈ copied fs src exe d) :
     (comps d).isPrefixOf (comps n.path) = true := by
@@ -386,24 +392,28 @@ theorem holds_install_obs (i : Input) (h : i.op = .install) (s e : Node) (nm : T
   refine ⟨hfail, ?_⟩
   unfold installFinish
   simp only [g2, hv, Bool.not_true, Bool.and_false, Bool.false_eq_true, if_false]
-  simp only [Holds, clauses, effName, h, hsrc, Clauses.holds_cons, Clauses.holds_nil, Bool.and_true]
-  have hch : (sortTexts (diffPaths (List.filter (fun n => under (dirPath i.root nm) n.path) i.fs)
-      ({ path := dirPath i.root nm, kind := Kind.dir, ver := 0 } :: copied i.fs s e (dirPath i.root nm)))).all
-      (inPluginDir i.root nm) = true := by
-    rw [all_sortTexts, List.all_eq_true]
-    intro p hp
-    simp only [diffPaths, List.mem_append, List.mem_map, List.mem_filter] at hp
-    rcases hp with ⟨n, ⟨⟨_, hu⟩, _⟩, rfl⟩ | ⟨n, ⟨hn, _⟩, rfl⟩
-    · simpa [under, inPluginDir, hd] using hu
-    · rcases List.mem_cons.1 hn with e' | e'
-      · subst e'
-        simp [inPluginDir, hd]
-      · have := comps_copied e'
-        simpa [inPluginDir, hd] using this
-  simp [hs]
-  refine ⟨?_, ?_⟩
-  · simpa using hch
-  · simpa [h] using hex
+  split
+  · exact hfail
+  · simp only [Holds, clauses, effName, h, hsrc, Clauses.holds_cons, Clauses.holds_nil, Bool.and_true]
+    have hch : (sortTexts (diffPaths (List.filter (fun n => under (dirPath i.root nm) n.path) i.fs)
+        ({ path := dirPath i.root nm, kind := Kind.dir, ver := 0, target := [] } :: copied i.fs s e (dirPath i.root nm)))).all
+        (inPluginDir i.root nm) = true := by
+      rw [all_sortTexts, List.all_eq_true]
+      intro p hp
+      simp only [diffPaths, List.mem_append, List.mem_map, List.mem_filter] at hp
+      rcases hp with ⟨n, ⟨⟨_, hu⟩, _⟩, rfl⟩ | ⟨n, ⟨hn, _⟩, rfl⟩
+      · simpa [under, inPluginDir, hd] using hu
+      · rcases List.mem_cons.1 hn with e' | e'
+        · subst e'
+          simp [inPluginDir, hd]
+        · have := comps_copied e'
+          simpa [inPluginDir, hd] using this
+    have hch' := all_inRoot hch
+    simp [hs]
+    refine ⟨?_, ?_, ?_⟩
+    · simpa using hch
+    · simpa using hch'
+    · simpa [h] using hex
 
 theorem holds_install (i : Input) (h : i.op = .install) : Holds i (runInstall i) = true := by
   obtain ⟨_, _, g3⟩ := facts_guards
@@ -489,7 +499,7 @@ theorem effects_confined (i : Input) (hop : i.op ≠ .list) :
   have hl : (i.op == Op.list) = false := by simpa using hop
   simp only [Holds, clauses, Clauses.holds_cons, Clauses.holds_nil, Bool.and_true, Bool.and_eq_true, hl,
     Bool.false_or] at hm
-  obtain ⟨_, c2, c3, c4, _⟩ := hm
+  obtain ⟨_, c2, c3, _, c4, _⟩ := hm
   cases hn : effName i with
   | none =>
     simp only [hn] at c2 c3 c4
@@ -577,10 +587,10 @@ theorem list_is_pure (i : Input) : (runList i).err = false ∧ (runList i).execu
 /-! ### non-vacuity -/
 
 def sampleFS : List Node :=
-  [ ⟨"/a".toList, .dir, 0⟩, ⟨"/a/p".toList, .dir, 0⟩, ⟨"/a/p/good".toList, .dir, 0⟩,
-    ⟨"/a/p/good/notation-good".toList, .exec, 2⟩, ⟨"/a/p/lnk".toList, .symdir, 0⟩, ⟨"/a/p/f".toList, .file, 1⟩,
-    ⟨"/a/victim".toList, .dir, 0⟩, ⟨"/a/victim/notation-victim".toList, .exec, 7⟩,
-    ⟨"/src".toList, .dir, 0⟩, ⟨"/src/notation-new".toList, .exec, 2⟩, ⟨"/src/notation-..".toList, .exec, 2⟩ ]
+  [ ⟨"/a".toList, .dir, 0, []⟩, ⟨"/a/p".toList, .dir, 0, []⟩, ⟨"/a/p/good".toList, .dir, 0, []⟩,
+    ⟨"/a/p/good/notation-good".toList, .exec, 2, []⟩, ⟨"/a/p/lnk".toList, .symdir, 0, []⟩, ⟨"/a/p/f".toList, .file, 1, []⟩,
+    ⟨"/a/victim".toList, .dir, 0, []⟩, ⟨"/a/victim/notation-victim".toList, .exec, 7, []⟩,
+    ⟨"/src".toList, .dir, 0, []⟩, ⟨"/src/notation-new".toList, .exec, 2, []⟩, ⟨"/src/notation-..".toList, .exec, 2, []⟩ ]
 
 /-- a valid, installed name is found and run where it should be -/
 example : run { op := .get, root := "/a/p/".toList, name := "good".toList, src := [], overwrite := false, trusted := true, fs := sampleFS } =
@@ -606,6 +616,25 @@ example : run { op := .install, root := "/a/p".toList, name := "..".toList, src 
 /-- the listing: the real directory only -/
 example : (run { op := .list, root := "/a/p".toList, name := [], src := [], overwrite := false, trusted := true, fs := sampleFS }).listed =
     ["good".toList] := by decide
+
+/-- a plugin directory left over by a broken installation: the executable entry is a dangling
+link, the licence a link to a file outside the root -/
+def leftoverFS : List Node :=
+  [ ⟨"/a".toList, .dir, 0, []⟩, ⟨"/a/p".toList, .dir, 0, []⟩, ⟨"/a/p/new".toList, .dir, 0, []⟩,
+    ⟨"/a/p/new/LICENSE".toList, .symfile, 0, "/outside/data".toList⟩,
+    ⟨"/a/p/new/notation-new".toList, .symnone, 0, "/outside/ghost1".toList⟩,
+    ⟨"/outside".toList, .dir, 0, []⟩, ⟨"/outside/data".toList, .file, 11, []⟩,
+    ⟨"/src".toList, .dir, 0, []⟩, ⟨"/src/notation-new".toList, .exec, 2, []⟩ ]
+
+/-- Install replaces the left-over directory: the links go, a fresh executable comes, and
+nothing outside `<root>/<name>` is touched -/
+example : run { op := .install, root := "/a/p".toList, name := "new".toList, src := "/src/notation-new".toList, overwrite := false, trusted := true, fs := leftoverFS } =
+    { err := false, executed := ["/src/notation-new".toList],
+      changed := ["/a/p/new/LICENSE".toList, "/a/p/new/notation-new".toList], listed := [] } := by decide
+
+/-- `Holds` is false of an Install that wrote through the dangling link -/
+example : Holds { op := .install, root := "/a/p".toList, name := "new".toList, src := "/src/notation-new".toList, overwrite := false, trusted := true, fs := leftoverFS }
+    { err := false, executed := ["/src/notation-new".toList], changed := ["/outside/ghost1".toList], listed := [] } = false := by decide
 
 /-- `Holds` is false of the unguarded behaviour: the victim directory removed ... -/
 example : Holds { op := .uninstall, root := "/a/p".toList, name := "../victim".toList, src := [], overwrite := false, trusted := true, fs := sampleFS }
